@@ -31,6 +31,39 @@ def setup(common=None):
     import unyt
 
     _U.update(np=np, unyt=unyt, ua=unyt.unyt_array, uq=unyt.unyt_quantity, Unit=unyt.Unit)
+    # units of the specification's table, by the table's (ASCII) names
+    _U["table"] = [(n, unyt.Unit(n)) for n in ("km", "m", "cm", "K", "degC", "degF", "R")]
+
+
+def _uname(units):
+    """unit -> the specification's name for it (str() of degC/degF is not ASCII), else str()"""
+    for n, u in _U["table"]:
+        try:
+            if units == u and str(units) == str(u):
+                return n
+        except Exception:  # noqa: BLE001
+            pass
+    return str(units)
+
+
+def _root(sh, lay):
+    """the source ndarray holding 1..n (C order of its elements) in the requested memory layout"""
+    np = _U["np"]
+    n = int(np.prod(sh)) if sh else 1
+    vals = np.arange(1, n + 1, dtype="f8").reshape(sh)
+    if lay == "C":
+        return vals
+    if lay == "F":
+        return np.asfortranarray(vals)
+    if lay == "col":
+        base = np.zeros(tuple(sh) + (2,), dtype="f8")
+        r = base[..., 1]
+        r[...] = vals
+        return r
+    if lay == "rev":
+        base = np.ascontiguousarray(vals[::-1]) if sh else vals
+        return base[::-1] if sh else base
+    raise ValueError("layout " + lay)
 
 
 def _mask(name, n):
@@ -121,7 +154,7 @@ def _project(x, earlier, exc=""):
     return {
         "k": k,
         "sh": [int(s) for s in x.shape] if isarr else [],
-        "u": str(x.units) if k in ("Q", "A") else "",
+        "u": _uname(x.units) if k in ("Q", "A") else "",
         "nm": bool(getattr(x, "name", None) == "nm") if k in ("Q", "A") else False,
         "cc": bool(x.flags.c_contiguous) if isarr else True,
         "vals": _vals(x),
@@ -165,8 +198,19 @@ def apply(x, op):
     if o == "ctor_list":
         return ua(x.tolist(), "km", name="nm")
     if o == "mixlist":
-        lst = [x[j] * _U["Unit"](t[j % 2]) for j in range(x.shape[0])]
-        return ua(lst)
+        lst = [x[j] * _U["Unit"](t[j % len(t)]) for j in range(x.shape[0])]
+        if s == "list":
+            return ua(lst)
+        if s == "tuple":
+            return ua(tuple(lst))
+        fam = ("km", "m", "cm") if t[0] in ("km", "m", "cm") else ("K", "degC", "degF", "R")
+        arr = ua(np.zeros(x.shape), fam[a - 1])
+        if s == "setitem":
+            arr[:] = lst
+            return arr
+        if s == "ufunc":
+            return np.add(arr, lst)
+        raise ValueError("mixlist form " + s)
     if o == "idx":
         return x[_index(x, op["items"])]
     if o == "iter":
@@ -292,9 +336,14 @@ def _rvals(x):
     np = _U["np"]
     out = []
     for v in np.asarray(x).ravel().tolist():
-        f = Fraction(float(v)).limit_denominator(10**6)
-        if abs(float(f) - float(v)) > 1e-12 * max(1.0, abs(float(v))):
-            f = Fraction(float(v)).limit_denominator(10**9)
+        if v != v or abs(v) > 1e7:
+            out.append([1999999999, 1])
+            continue
+        f = Fraction(float(v)).limit_denominator(200000)
+        if abs(float(f) - float(v)) > 4e-13 * max(1.0, abs(float(v))):
+            # not one of the table's rationals: an opaque value no conversion yields
+            out.append([1999999998, 1])
+            continue
         out.append([int(f.numerator), int(f.denominator)])
     return out
 
@@ -302,8 +351,8 @@ def _rvals(x):
 def observe(case):
     np = _U["np"]
     sh = tuple(int(s) for s in case["root"])
-    n = int(np.prod(sh)) if sh else 1
-    root = np.arange(1, n + 1, dtype="f8").reshape(sh)
+    lay = case.get("lay", "C")
+    root = _root(sh, lay)
     objs = [root]
     obs = [_project(root, [])]
     for op in case["h"]:
@@ -313,10 +362,12 @@ def observe(case):
             ob = _project(r, objs)
             if op["op"] == "mixlist" and isinstance(r, np.ndarray):
                 ob["rv"] = _rvals(r)
+                ob["rvs"] = [repr(float(v)) for v in np.asarray(r).ravel().tolist()]
         except Exception as e:  # noqa: BLE001 - the exception is the observation
             r = None
             ob = _project(None, objs, exc=type(e).__name__)
         ob.setdefault("rv", [])
+        ob.setdefault("rvs", [])
         objs.append(r)
         obs.append(ob)
     pre = [_vals(x) for x in objs]
@@ -330,4 +381,4 @@ def observe(case):
             except Exception:  # noqa: BLE001
                 ok = False
         writes.append({"w": w, "skip": not ok, "fin": [_vals(y) for y in objs]})
-    return {"root": list(sh), "h": case["h"], "obs": obs, "pre": pre, "writes": writes}
+    return {"root": list(sh), "lay": lay, "h": case["h"], "obs": obs, "pre": pre, "writes": writes}
